@@ -34,12 +34,27 @@ ASSUMPTIONS = [
     "wall-clock bounds (data-source gate 120 s, scenario 600 s) are tool errors, never verdicts; an execution-manager "
     "request timeout (1 s wall clock, hard-coded for mock execution) changes only the order-response event, which is "
     "not compared",
+    "clock clause: harness datasets space market events one hour of exchange time apart; in gated scenarios and in "
+    "paused-clock scenarios with a pause before every item nothing can be processed between an order's event and the "
+    "stamping of its request, so fill / balance / position-entry timestamps must lie within 300 s (the wall-clock delta "
+    "HistoricalClock adds) after the exchange time of the order's event in that run; a scenario taking more than 120 s "
+    "of wall time is a tool error; in ungated in-memory scenarios the clock legitimately runs ahead with the run's own "
+    "progress and timestamps are not judged",
     "paused-clock scenarios (current_thread runtime, tokio time paused, data source sleeping virtual milliseconds to "
     "hours between items, days in total) are judged on the dataset-consumption clauses; HistoricalClock reads the real "
     "Utc::now there, which only stamps",
     "the fatal-error path (engine stops on an unrecoverable execution-link error) is model-checked in the specification "
     "but not driven in the implementation: the property exempts it",
 ]
+
+SPACING_MS = 3600 * 1000        # exchange time between two dataset items (harness datasets)
+SLACK_MS = 300 * 1000           # wall-clock delta HistoricalClock may add
+WALL_LIMIT_S = 120              # a scenario slower than this cannot be judged on timestamps (tool error)
+
+
+def hms(ms):
+    return "%02d:%02d:%06.3f" % (ms // 3600000, ms // 60000 % 60, ms % 60000 / 1000.0)
+
 
 TRACE = "Trace_" + MODULE
 CFG = TRACE + ".cfg"
@@ -253,7 +268,32 @@ def judge(ctx, scns, trace_path, results_path, expected, label):
                                           % (who, json.dumps(r["acts"]), field, base["scn"], diff(r[field], base[field])),
                                           replay_of(sorted(set(alone[(x["data_seed"], x["variant"])]["scn"] for x in rs
                                                                if (x["data_seed"], x["variant"]) in alone)) + [scn]))
-            elif r["mode"] == "inmem" and r["trades_seen"] < r["orders_fired"]:
+            # Isolation of the clock: every fill / balance / position-entry timestamp of a run lies at the
+            # exchange time of the event the order was opened on in THIS run (+ wall-clock slack)
+            if r["clock_checked"] and not rejected:
+                if r["wall_s"] > WALL_LIMIT_S:
+                    raise vlib.ToolError("%s: the scenario took %.0f s of wall time - timestamps cannot be judged" % (who, r["wall_s"]))
+                stamps = [("fill", f["k"], f["ts_ms"]) for f in r["fill_ts"]]
+                if r["mode"] == "gated":
+                    stamps += [("balance", k, ts) for k, ts in zip(r["fired"], r["balance_ts"])]
+                for what, k, ts in stamps:
+                    if not 0 <= ts - k * SPACING_MS <= SLACK_MS:
+                        ctx.violation("clock:%s:%s-not-at-own-event-time" % (r["mode"], what),
+                                      "%s: the %s of the order opened on event %d (exchange time %s) is stamped %s - a run's clock must "
+                                      "follow its own consumed prefix (slack %d s)" % (who, what, k, hms(k * SPACING_MS), hms(ts), SLACK_MS // 1000),
+                                      replay_of([scn]))
+                for ts in (r["times"] or {}).get("position_enter_ms", []):
+                    if ts is not None and not any(0 <= ts - k * SPACING_MS <= SLACK_MS for k in r["fired"]):
+                        ctx.violation("clock:%s:position-entry-not-at-own-event-time" % r["mode"],
+                                      "%s: an open position's entry time %s is at none of the events this run traded on %s"
+                                      % (who, hms(ts), r["fired"]), replay_of([scn]))
+                if r["mode"] == "gated" and r["k"] > 1:
+                    for f, g in zip(r["fill_ts"], base["fill_ts"]):
+                        if abs(f["ts_ms"] - g["ts_ms"]) > SLACK_MS:
+                            ctx.violation("isolation:timestamps", "%s: fill of order %d stamped %s, alone (%s) %s" % (
+                                who, f["k"], hms(f["ts_ms"]), base["scn"], hms(g["ts_ms"])), replay_of([base["scn"], scn]))
+                stats["timestamps_judged"] = stats.get("timestamps_judged", 0) + len(stamps)
+            if r["mode"] == "inmem" and r["trades_seen"] < r["orders_fired"]:
                 stats["inmem_runs_ending_with_unprocessed_fills"] += 1
             # spec -> impl: the final observation is one of the outcomes TLC enumerated for these parameters
             exp = expected.get((r["data_seed"], r["variant"]))
@@ -278,7 +318,9 @@ def brief(l):
     if l["a"] == "Disc":
         return "a Reconnecting item (%d items seen)" % l["nc"]
     if l["a"] == "Account":
-        return "account event %s of order %d (%d items, %d account events seen; in flight %s)" % (l["kind"], l["k"], l["nc"], l["na"], l["sent"])
+        stamp = ", stamped %s = exchange time of item %d" % (hms(l["ts_ms"]), l["tsk"]) if l.get("ck") else ""
+        return "account event %s of order %d%s (%d items, %d account events seen; in flight %s)" % (
+            l["kind"], l["k"], stamp, l["nc"], l["na"], l["sent"])
     if l["a"] == "End":
         return "the end of the backtest with %d items / %d account events seen, summary from own engine: %s" % (l["nc"], l["na"], l["sumok"])
     return "the start of the run (n=%d, acts %s)" % (l["n"], l["acts"])
@@ -305,7 +347,8 @@ def diff(a, b, path=""):
 def synthetic_run():
     """A well-formed observation log (what a correct run of n=12, orders on events 3 and 7 looks like)."""
     def L(a, **kw):
-        d = {"a": a, "id": 0, "tag": 0, "kind": "-", "k": 0, "sent": [], "nc": 0, "na": 0, "n": 0, "recs": [], "acts": [], "sumok": True}
+        d = {"a": a, "id": 0, "tag": 0, "kind": "-", "k": 0, "sent": [], "nc": 0, "na": 0, "n": 0, "recs": [], "acts": [], "sumok": True,
+             "tsk": 0, "ck": False, "ts_ms": 0}
         d.update(kw)
         return d
     seg = [L("Reset", n=12, recs=[5], acts=[3, 7], tag=2, kind="selftest/0")]
@@ -321,7 +364,7 @@ def synthetic_run():
             sent.append(i)
             for kind in ("balance", "order", "trade"):
                 na += 1
-                seg.append(L("Account", kind=kind, k=i, nc=nc, na=na, sent=list(sent)))
+                seg.append(L("Account", kind=kind, k=i, nc=nc, na=na, sent=list(sent), ck=kind != "order", tsk=i if kind != "order" else 0))
     seg.append(L("End", tag=2, nc=nc, na=na, sent=list(sent)))
     return seg
 
@@ -342,6 +385,7 @@ def binding_bites(ctx):
     m = copy(); del m[markets[-1]:-1]; muts.append(("Shutdown overtook the tail of the dataset", m, "shutdown-before-dataset-consumed"))
     m = copy(); m[trade] = dict(m[trade], k=m[trade]["k"] + 1); muts.append(("a fill of an order this run never sent", m, "unexpected-account-event"))
     m = copy(); m[markets[1]] = dict(m[markets[1]], tag=m[markets[1]]["tag"] + 1); muts.append(("an event of another run's stream", m, "foreign-stream"))
+    m = copy(); m[trade] = dict(m[trade], tsk=m[trade]["tsk"] + 4); muts.append(("a fill stamped by another run's clock", m, "foreign-clock"))
     m = copy(); m[-1] = dict(m[-1], sumok=False); muts.append(("summary of another engine", m, "summary-not-from-own-engine"))
     p = ctx.path("selftest_corrupted.ndjson")
     bounds = []
